@@ -638,7 +638,7 @@ let parse_items (toks : string list) : Scoping.item list * (char * coq_N) list =
       tags := (c, n) :: !tags;
       (match c with
        | 'd' | 'h' -> go r (Scoping.IDecl (n, Types.Void) :: acc)
-       | 'u' | 'g' -> go r (Scoping.IUse n :: acc)
+       | 'u' | 'g' | 't' -> go r (Scoping.IUse n :: acc)
        | _ -> raise (Parse ("item " ^ t)))
   in
   let (its, rest) = go toks [] in
@@ -661,12 +661,13 @@ let handle_scope fields =
       let ev_s = Buffer.create 64 and dg_s = Buffer.create 16 in
       let add b x = if Buffer.length b > 0 then Buffer.add_char b ' '; Buffer.add_string b x in
       L.iter2 (fun e (c, n) ->
-          let vis = c <> 'h' in
+          (* 'h': a declaration, 't': a use (identifier inside a type) that the graph does not store *)
+          let vis = c <> 'h' && c <> 't' in
           (match e with
            | Scoping.EBound i -> if vis then add ev_s ("B" ^ string_of_n i)
            | Scoping.EDup -> if vis then add ev_s "D"; add dg_s ("X" ^ string_of_n n)
-           | Scoping.ERes i -> add ev_s ("R" ^ string_of_n i)
-           | Scoping.EUnres -> add ev_s "U"; add dg_s (if c = 'g' then "G" else "V")))
+           | Scoping.ERes i -> if vis then add ev_s ("R" ^ string_of_n i)
+           | Scoping.EUnres -> if vis then add ev_s "U"; add dg_s (if c = 'g' then "G" else "V")))
         evs tags;
       let m = Buffer.contents ev_s ^ "|" ^ Buffer.contents dg_s in
       if m <> impl then begin
